@@ -760,6 +760,58 @@ func init() {
 				}
 				exts = append(exts, comb(0, 1, 2, 3, 4, 5))
 			}
+			// the removal options against the standard itself: the extracted Spec's parser followed by the Spec's setter steps
+			sdp := &specPool{}
+			defer sdp.close()
+			vsStandard := func(p *Prof, input string, op Obs, what string, i int, ops []Op) {
+				if len(input) > specMaxLen || !validUTF8(input) {
+					return
+				}
+				sd := sdp.get()
+				defer sdp.put(sd)
+				sobs := specSetters(sd, nil, input, ops)
+				want := sobs[len(sobs)-1]
+				if len(sobs) != len(ops)+1 && sobs[0].Kind == "U" {
+					c.Report(Finding{Class: "obligation", What: fmt.Sprintf("the Spec answered %d states for %d operations: %v", len(sobs), len(ops), sobs), Case: Case{Kind: "cparse", Cfg: p.Desc, Input: input, Family: what, Index: i}})
+					return
+				}
+				if df := diffSpec(want, op); df != "" {
+					c.Report(Finding{Class: "violation", What: fmt.Sprintf("%s differs from the standard's parser followed by the standard's setter steps: %s", what, df),
+						Case: Case{Kind: "cparse", Cfg: p.Desc, Input: input, Family: what + ":standard", Index: i}, Host: op.Fields0(fHostname)})
+				}
+			}
+			// opaque paths with trailing spaces before every arrangement of an absent, empty or non-empty query and fragment:
+			// the setters strip those spaces exactly when neither a query nor a fragment is left
+			{
+				var ins []string
+				for _, sc := range []string{"sc:", "mailto:", "data:"} {
+					for _, body := range []string{"x", "a b", "x/y", ""} {
+						for _, spc := range []string{"", " ", "  "} {
+							for _, q := range []string{"", "?", "?q", "? ", "?q "} {
+								for _, f := range []string{"", "#", "#f", "# ", "#f "} {
+									ins = append(ins, sc+body+spc+q+f)
+								}
+							}
+						}
+					}
+				}
+				all3 := profFromDesc("rmFrag+rmPort+rmUser")
+				c.Pool.Run(len(ins), func(d *Driver, i int) {
+					in := ins[i]
+					c.Count("opaque\x00"+in, strings.Contains(in, " "), "opaque-trailing-spaces")
+					for _, pr := range []struct {
+						p   *Prof
+						ops []Op
+					}{{rmFrag, []Op{{K: "s", W: 8}}}, {rmUser, []Op{{K: "s", W: 1}, {K: "s", W: 2}}}, {rmPort, []Op{{K: "s", W: 5}}},
+						{all3, []Op{{K: "s", W: 1}, {K: "s", W: 2}, {K: "s", W: 5}, {K: "s", W: 8}}}} {
+						if pr.p == nil {
+							continue
+						}
+						op := c.cmpProf(d, pr.p, nil, in, allButVerrs, "opaque-trailing-spaces", i)
+						vsStandard(pr.p, in, op, "removal options ("+pr.p.Desc+")", i, pr.ops)
+					}
+				})
+			}
 			c.Pool.Run(20000*c.Scale, func(d *Driver, i int) {
 				r := rng.Fork(i)
 				var base *string
@@ -800,8 +852,9 @@ func init() {
 					return
 				}
 				// removal options = the standard's setters applied to the parser's result
-				setterForm := func(p *Prof, what string, f func(u *url.Url)) {
+				setterForm := func(p *Prof, what string, f func(u *url.Url), ops ...Op) {
 					op := c.cmpProf(d, p, nil, input, allButVerrs, what, i)
+					vsStandard(p, input, op, what, i, ops)
 					want := guard(func() Obs {
 						u, err := dp.Parse(input)
 						if err != nil {
@@ -816,11 +869,11 @@ func init() {
 				}
 				switch i % 4 {
 				case 0:
-					setterForm(rmUser, "remove-user-info", func(u *url.Url) { u.SetUsername(""); u.SetPassword("") })
+					setterForm(rmUser, "remove-user-info", func(u *url.Url) { u.SetUsername(""); u.SetPassword("") }, Op{K: "s", W: 1}, Op{K: "s", W: 2})
 				case 1:
-					setterForm(rmPort, "remove-port", func(u *url.Url) { u.SetPort("") })
+					setterForm(rmPort, "remove-port", func(u *url.Url) { u.SetPort("") }, Op{K: "s", W: 5})
 				case 2:
-					setterForm(rmFrag, "remove-fragment", func(u *url.Url) { u.SetHash("") })
+					setterForm(rmFrag, "remove-fragment", func(u *url.Url) { u.SetHash("") }, Op{K: "s", W: 8})
 				case 3:
 					// default scheme
 					// every scheme class as the default (special, file, non-special), also on scheme-less inputs that start with slashes
